@@ -1,5 +1,7 @@
 import PW.Proofs.SpecLemmas
 import PW.Proofs.MixedRadix
+import PW.Proofs.DecideLemmas
+import PW.Props.Tables
 /-!
 # C08 — representation changes are lossless; the contraction setting is physics-neutral
 
@@ -40,8 +42,51 @@ theorem label_expansion (k : Nat) (r c : Nat) :
   unfold outer
   by_cases h1 : r = k <;> by_cases h2 : c = k <;> simp [h1, h2, conj_eq_star]
 
+/-! ## contraction: decision logic (model `PW.Decide`, tied to the source by the regenerated table
+`contractSites` and by the function-level correspondence on crafted spectra) -/
+
+/-- contraction starts only for a purity within `tol` of 1 -/
+theorem contraction_only_when_nearly_pure (tol purity : ℝ) (eigs : List ℝ)
+    (h : (PW.Decide.contractDecision (PW.Decide.closeR tol) purity eigs).attempt = true) : |purity - 1| < tol := by
+  simpa [PW.Decide.contractDecision, PW.Decide.closeR] using h
+
+/-- ... and then keeps an eigenvector whose eigenvalue is within `tol` of 1: the dominant one -/
+theorem contraction_keeps_dominant_eigenvector (eigs : List ℝ) (tol : ℝ) (h0 : ∀ l ∈ eigs, 0 ≤ l) (h1 : eigs.sum = 1)
+    (hatt : (PW.Decide.contractDecision (PW.Decide.closeR tol) (eigs.map fun l => l ^ 2).sum eigs).attempt = true) :
+    ∃ l, eigs[(PW.Decide.contractDecision (PW.Decide.closeR tol) (eigs.map fun l => l ^ 2).sum eigs).index]? = some l ∧ |l - 1| < tol :=
+  PW.Decide.contract_picks_dominant eigs tol h0 h1 hatt
+
+/-- the physical state changes by less than `tol` in weight -/
+theorem contraction_discards_less_than_tol (eigs : List ℝ) (tol : ℝ) (h0 : ∀ l ∈ eigs, 0 ≤ l) (h1 : eigs.sum = 1)
+    (hatt : (PW.Decide.contractDecision (PW.Decide.closeR tol) (eigs.map fun l => l ^ 2).sum eigs).attempt = true) :
+    ∃ l, eigs[(PW.Decide.contractDecision (PW.Decide.closeR tol) (eigs.map fun l => l ^ 2).sum eigs).index]? = some l ∧ 1 - l < tol :=
+  PW.Decide.contract_discards_less_than_tol eigs tol h0 h1 hatt
+
+/-- the hypotheses are satisfiable: spectrum (3e-7, 1 − 3e-7) at the library's tolerance -/
+example : let eigs : List ℝ := [3e-7, 1 - 3e-7]
+    (∀ l ∈ eigs, 0 ≤ l) ∧ eigs.sum = 1 ∧ |(eigs.map fun l => l ^ 2).sum - 1| < 1e-6 := by
+  refine ⟨?_, ?_, ?_⟩
+  · intro l hl; simp only [List.mem_cons, List.not_mem_nil, or_false] at hl; rcases hl with rfl | rfl <;> norm_num
+  · norm_num
+  · simp only [List.map_cons, List.map_nil, List.sum_cons, List.sum_nil]; rw [abs_lt]; constructor <;> norm_num
+
+/-- the same tolerance in both tests is what the source does, at every `contract` site -/
+theorem source_contract_sites_use_one_tolerance :
+    PW.Generated.contractSites.all PW.TablesSpec.siteConsistent = true := PW.Props.Tables.contract_sites_consistent
+
+/-- with two different tolerances the guarantee fails (witness) -/
+theorem two_tolerances_break_it :
+    let eigs : List ℝ := [4e-6, 1 - 4e-6]
+    PW.Decide.closeR 1.1e-5 (eigs.map fun l => l ^ 2).sum = true ∧ PW.Decide.argmaxMask (eigs.map (PW.Decide.closeR 1e-6)) = 0 :=
+  PW.Decide.mismatched_tolerances_pick_wrong
+
 end PW.Props.C08
 
 #print axioms PW.Props.C08.outer_hermitian
 #print axioms PW.Props.C08.outer_phase_invariant
 #print axioms PW.Props.C08.label_expansion
+#print axioms PW.Props.C08.contraction_only_when_nearly_pure
+#print axioms PW.Props.C08.contraction_keeps_dominant_eigenvector
+#print axioms PW.Props.C08.contraction_discards_less_than_tol
+#print axioms PW.Props.C08.source_contract_sites_use_one_tolerance
+#print axioms PW.Props.C08.two_tolerances_break_it
